@@ -361,6 +361,21 @@ func init() {
 // jsonUnmarshal implements json.Unmarshal(data, dst) for the destination kinds
 // the encoded code uses.
 func (ex *Exec) jsonUnmarshal(data *BytesV, dst *IfaceV) Value {
+	return ex.jsonUnmarshalOpt(data, dst, false)
+}
+
+// jsonExtra: "the JSON object s has members that struct type key does not declare" (what
+// Decoder.DisallowUnknownFields rejects); false for the encoding of a value of that type.
+func jsonExtra(tt *TermTable, key string, s *Term) *Term {
+	return liftIte(tt, s, func(s *Term) *Term {
+		if s.op == "uf:jenc_"+key {
+			return tt.Bool(false)
+		}
+		return tt.UF("jextra_"+key, SBool, s)
+	})
+}
+
+func (ex *Exec) jsonUnmarshalOpt(data *BytesV, dst *IfaceV, strict bool) Value {
 	tt := ex.tt
 	ex.H.noteStub("encoding/json.Unmarshal(contract)")
 	if dst.typ == nil {
@@ -433,6 +448,11 @@ func (ex *Exec) jsonUnmarshal(data *BytesV, dst *IfaceV) Value {
 				ex.store(p, &PtrV{typ: et})
 				return nilErr()
 			}
+			if strict && ex.branch(jsonExtra(tt, key, s), "json-unknown-field-"+key) {
+				// (the real decoder may have filled some fields already; callers under test discard the value on error)
+				ex.store(p, &PtrV{typ: et})
+				return ex.opaqueErr("json: unknown field")
+			}
 			sv, ok := ex.decStruct(st, s)
 			if ok {
 				ex.store(p, &PtrV{obj: ex.newObj(sv, st), typ: et})
@@ -455,6 +475,9 @@ func (ex *Exec) jsonUnmarshal(data *BytesV, dst *IfaceV) Value {
 		key := typeKey(et)
 		if !ex.branch(tt.UF("jvalid_"+key, SBool, s), "json-valid-"+key) {
 			return ex.opaqueErr("json: cannot unmarshal into " + key)
+		}
+		if strict && ex.branch(jsonExtra(tt, key, s), "json-unknown-field-"+key) {
+			return ex.opaqueErr("json: unknown field")
 		}
 		sv, ok := ex.decStruct(et, s)
 		if ok {
